@@ -62,6 +62,12 @@ type waitState struct {
 }
 
 type world struct {
+	// shadow model of knob slash_keys (keys identified up to leading slashes)
+	mN          *model
+	mNok        bool
+	shadowRan   bool
+	shadowMsg   string
+	stopJudging bool
 	c     *sim.Case
 	e     *sim.Env
 	mode  string
@@ -122,6 +128,11 @@ func (w *world) Setup(e *sim.Env) {
 	}
 	w.m = newModel(grace)
 	w.m.LaxVersions = w.prop() == "C06"
+	if w.c.Knob("slash_keys", 0) == 1 && w.mode == "seq" {
+		w.mN = newModel(grace)
+		w.mN.LaxVersions = w.m.LaxVersions
+		w.mNok = true
+	}
 	w.pollBound = 250 * time.Millisecond
 	shared := w.c.Knob("shared_client", 0) == 1
 	for ti := range w.c.Tasks {
@@ -289,6 +300,9 @@ func (w *world) runTask(ts *taskState, t sim.Task) {
 // doOp executes one operation and feeds the mode's oracle.
 func (w *world) doOp(ctx context.Context, ts *taskState, op sim.Op, i int) {
 	e := w.e
+	if w.stopJudging {
+		return
+	}
 	seq := w.mode == "seq" || w.mode == "exp"
 	if w.mode == "expwait" && (op.K == "put" || op.K == "create") && op.D > 0 {
 		defer func(k string, at time.Time) {
@@ -367,6 +381,7 @@ func (w *world) doOp(ctx context.Context, ts *taskState, op sim.Op, i int) {
 		}
 		if seq {
 			msg = w.m.applyCreate(op.S, op.V, exp, &o, t0, t1)
+			w.shadow(func(m *model) string { oo := o; return m.applyCreate(nrm(op.S), op.V, exp, &oo, t0, t1) })
 		}
 		if conc {
 			w.record(ts, "create", op.S, op.V, "", o, call)
@@ -389,6 +404,7 @@ func (w *world) doOp(ctx context.Context, ts *taskState, op sim.Op, i int) {
 		}
 		if seq && msg == "" {
 			msg = w.m.applyGet(op.S, &o, t0, t1)
+			w.shadow(func(m *model) string { oo := o; return m.applyGet(nrm(op.S), &oo, t0, t1) })
 		}
 		if w.mode == "expwait" && op.F {
 			if lv, ok := w.lastVal[op.S]; ok && (err != nil || valStr(r.Value) != lv) {
@@ -422,6 +438,7 @@ func (w *world) doOp(ctx context.Context, ts *taskState, op sim.Op, i int) {
 		}
 		if seq && msg == "" {
 			msg = w.m.applyGetMany(keys, &o, t0, t1)
+			w.shadow(func(m *model) string { oo := o; return m.applyGetMany(nrms(keys), &oo, t0, t1) })
 		}
 		if conc && err == nil && len(rs) == len(keys) {
 			for j, k := range keys {
@@ -447,6 +464,7 @@ func (w *world) doOp(ctx context.Context, ts *taskState, op sim.Op, i int) {
 		}
 		if seq && msg == "" {
 			msg = w.m.applyPut(op.S, op.V, exp, &o)
+			w.shadow(func(m *model) string { oo := o; return m.applyPut(nrm(op.S), op.V, exp, &oo) })
 		}
 		if conc {
 			w.record(ts, "put", op.S, op.V, "", o, call)
@@ -481,6 +499,7 @@ func (w *world) doOp(ctx context.Context, ts *taskState, op sim.Op, i int) {
 		o = outcome{Err: classify(err)}
 		if seq {
 			msg = w.m.applyPutMany(keys, vals, exps, &o)
+			w.shadow(func(m *model) string { oo := o; return m.applyPutMany(nrms(keys), vals, exps, &oo) })
 		}
 		if conc {
 			for j, k := range keys {
@@ -508,6 +527,7 @@ func (w *world) doOp(ctx context.Context, ts *taskState, op sim.Op, i int) {
 		}
 		if seq && msg == "" {
 			msg = w.m.applyCas(op.S, op.V, ver, exp, &o, t0, t1)
+			w.shadow(func(m *model) string { oo := o; return m.applyCas(nrm(op.S), op.V, ver, exp, &oo, t0, t1) })
 		}
 		if conc {
 			w.record(ts, "cas", op.S, op.V, ver, o, call)
@@ -524,6 +544,7 @@ func (w *world) doOp(ctx context.Context, ts *taskState, op sim.Op, i int) {
 		t1 := time.Now()
 		if seq {
 			msg = w.m.applyDelete(op.S, &o, t0, t1)
+			w.shadow(func(m *model) string { oo := o; return m.applyDelete(nrm(op.S), &oo, t0, t1) })
 		}
 		if conc {
 			w.record(ts, "del", op.S, "", "", o, call)
@@ -536,12 +557,51 @@ func (w *world) doOp(ctx context.Context, ts *taskState, op sim.Op, i int) {
 		o = outcome{Err: classify(err)}
 		if err == nil {
 			o.Keys = []string{}
-			for it.HasNext() {
-				k, ok := it.Next()
-				if !ok {
-					break
+			// the ways a caller may legally drain an Iterator (op.N): HasNext/Next pairs; an
+			// "anything at all?" guard before the loop (HasNext twice in a row, HasNext is a
+			// pure question); Next alone until it reports false; HasNext asked again after
+			// the end
+			switch op.N {
+			case 1:
+				if it.HasNext() {
+					for it.HasNext() {
+						k, ok := it.Next()
+						if !ok {
+							break
+						}
+						o.Keys = append(o.Keys, k)
+					}
 				}
-				o.Keys = append(o.Keys, k)
+			case 2:
+				for {
+					k, ok := it.Next()
+					if !ok {
+						break
+					}
+					o.Keys = append(o.Keys, k)
+				}
+			case 3:
+				for it.HasNext() && it.HasNext() {
+					k, ok := it.Next()
+					if !ok {
+						break
+					}
+					o.Keys = append(o.Keys, k)
+				}
+				if it.HasNext() {
+					msg = "HasNext() is true after the iterator was drained"
+				}
+				if k, ok := it.Next(); ok {
+					msg = fmt.Sprintf("Next() returned %q after the iterator was drained", k)
+				}
+			default:
+				for it.HasNext() {
+					k, ok := it.Next()
+					if !ok {
+						break
+					}
+					o.Keys = append(o.Keys, k)
+				}
 			}
 			it.Close()
 			sort.Strings(o.Keys)
@@ -553,7 +613,18 @@ func (w *world) doOp(ctx context.Context, ts *taskState, op sim.Op, i int) {
 				e.HarnessError("bad pattern " + op.S)
 				return
 			}
-			msg = w.m.applyList(g.Match, &o, t0, t1)
+			if msg == "" {
+				msg = w.m.applyList(g.Match, &o, t0, t1)
+			}
+			w.shadow(func(m *model) string {
+				gn, err := glob.Compile(nrm(op.S))
+				if err != nil {
+					return "pattern"
+				}
+				oo := o
+				oo.Keys = nrms(o.Keys)
+				return m.applyList(gn.Match, &oo, t0, t1)
+			})
 		}
 	case "wait":
 		w.doWait(ctx, ts, op, i, seq)
@@ -578,13 +649,50 @@ func (w *world) doOp(ctx context.Context, ts *taskState, op sim.Op, i int) {
 		e.Violate(w.prop(), "undocumented_error", "%s %s failed with an error outside the contract (no fault was injected): %s", ts.name, opDesc(op), o.Err[6:])
 		return
 	}
+	aliased := false
+	if w.mN != nil && w.shadowRan {
+		// the shadow model identifies keys that differ only in leading slashes: when the
+		// exact contract is broken at a point up to which the shadow contract explains
+		// everything - this operation included - the violation is exactly "such keys are
+		// one record" (a listed finding on the Redis backend), and nothing else
+		okBefore := w.mNok
+		if w.shadowMsg != "" {
+			w.mNok = false
+		}
+		aliased = msg != "" && okBefore && w.shadowMsg == ""
+		w.shadowRan, w.shadowMsg = false, ""
+	}
 	if msg != "" {
 		oracle := "contract"
 		if w.prop() == "C06" {
 			oracle = "expired_not_as_deleted"
 		}
+		if aliased {
+			oracle = "leading_slash_keys_aliased"
+			msg += " - explained by: keys that differ only in leading slashes are one record"
+			w.stopJudging = true
+		}
 		e.Violate(w.prop(), oracle, "[%s backend] %s: %s", w.be.Kind, opDesc(op), msg)
 	}
+}
+
+// nrm is the key identification of the shadow model (knob slash_keys).
+func nrm(k string) string { return strings.TrimLeft(k, "/") }
+
+func nrms(ks []string) []string {
+	out := make([]string, len(ks))
+	for i, k := range ks {
+		out[i] = nrm(k)
+	}
+	return out
+}
+
+func (w *world) shadow(f func(m *model) string) {
+	if w.mN == nil {
+		return
+	}
+	w.shadowRan = true
+	w.shadowMsg = f(w.mN)
 }
 
 func opDesc(op sim.Op) string { return op.String() }
